@@ -10,7 +10,9 @@
 (* order (they are, by construction: only Lin steps of successes change `objs`).                 *)
 (* Where the text is silent the contract is free: updating or deleting a name that does not      *)
 (* exist may be refused with any error class or treated as a success (put / no-op + version).    *)
-(* get / list are reads of the stored objects at one instant.                                    *)
+(* get / list are reads of the stored objects at one instant.  Any request may also be answered  *)
+(* with a server error (5xx: e.g. the cluster lock was not obtained in time); by the property's  *)
+(* last clause only successful requests modify the store, so such a request has no effect.       *)
 EXTENDS Integers, FiniteSets
 
 CONSTANTS Clients, Names, Kinds,
@@ -40,7 +42,8 @@ Outcomes(op, o, v) ==
     LET cur  == o[op.n]
         okPut == [rep |-> Rep("ok", v + 1, None, NoObjs), objs |-> Put(o, op), ver |-> v + 1]
         fail(S) == {[rep |-> Rep(s, 0, None, NoObjs), objs |-> o, ver |-> v] : s \in S}
-    IN CASE op.t = "create" -> IF cur.k # "none" THEN fail({"conflict"}) ELSE {okPut}
+    IN fail({"error"}) \cup
+       CASE op.t = "create" -> IF cur.k # "none" THEN fail({"conflict"}) ELSE {okPut}
          [] op.t = "update" -> IF cur.k = "none" THEN fail(FailSt) \cup {okPut}
                                ELSE IF cur.k # op.k THEN fail({"badreq"}) ELSE {okPut}
          [] op.t = "delete" -> IF cur.k = "none"
@@ -80,9 +83,9 @@ Mutating(c) == cst[c] = "pend" /\ cst'[c] = "done"
 SuccessBumpsByOne  == [][\A c \in Clients : (Mutating(c) /\ crep'[c].st = "ok" /\ cop[c].t \in {"create", "update", "delete"})
                                               => (ver' = ver + 1 /\ crep'[c].ver = ver')]_cvars
 RefusedChangesNothing == [][\A c \in Clients : (Mutating(c) /\ crep'[c].st # "ok") => (objs' = objs /\ ver' = ver)]_cvars
-CreateExisting409  == [][\A c \in Clients : (Mutating(c) /\ cop[c].t = "create" /\ objs[cop[c].n].k # "none") => crep'[c].st = "conflict"]_cvars
+CreateExisting409  == [][\A c \in Clients : (Mutating(c) /\ cop[c].t = "create" /\ objs[cop[c].n].k # "none") => crep'[c].st \in {"conflict", "error"}]_cvars
 UpdateOtherKind400 == [][\A c \in Clients : (Mutating(c) /\ cop[c].t = "update" /\ objs[cop[c].n].k \notin {"none", cop[c].k})
-                                              => crep'[c].st = "badreq"]_cvars
+                                              => crep'[c].st \in {"badreq", "error"}]_cvars
 Bounded == ver <= 3     \* state constraint for model checking the contract on its own
 VersionOnlyBySuccess == [][ver' # ver => \E c \in Clients : Mutating(c) /\ crep'[c].st = "ok"]_cvars
 =============================================================================
